@@ -11,6 +11,7 @@ import (
 	"os"
 	"path/filepath"
 	"runtime"
+	"strings"
 	"syscall"
 	"time"
 
@@ -131,7 +132,8 @@ func (viso *VirtualISO) init() error {
 
 		volumeName = ps3ModeVolumeName
 	} else {
-		_, volumeName = filepath.Split(viso.root)
+		// directory given with trailing separator(s) is still named by its last element
+		_, volumeName = filepath.Split(strings.TrimRight(viso.root, string(filepath.Separator)))
 	}
 
 	if err := viso.buildFS(volumeName, gameCode); err != nil {
